@@ -81,6 +81,24 @@ def check_split(cx: Cx, ob: Ob) -> None:
                 ob.violate(fn.qualname, where(fn, line), "str.split without maxsplit=1 cuts at every separator; identifiers containing the delimiter are mangled", witness="'a:b:c' must give ('a', 'b:c')", detail="split-all")
             elif a != ("item", P, ("const", 0)) or b != ("item", P, ("const", 1)):
                 ob.violate(fn.qualname, where(fn, line), f"_split returns `{show(t)[:70]}`", detail="parts")
+        elif m in ("find", "index"):
+            # head = curie[:i], tail = curie[i + len(sep):] with i = curie.find(sep)
+            lensep = ("call", ("builtin", "len"), (sep,), ())
+            if P[2] != (sep,):
+                ob.violate(fn.qualname, where(fn, line), f"{m} called with `{show(P[2][0]) if P[2] else ''}`, not the `sep` parameter", detail="sep-arg")
+            okh = op(a) == "slice" and a[1] == curie and (is_const(a[2], None) or is_const(a[2], 0)) and a[3] == P and is_const(a[4], None)
+            okt = op(b) == "slice" and b[1] == curie and is_const(b[3], None) and is_const(b[4], None) and b[2] in (("bin", "+", P, lensep), ("bin", "+", lensep, P))
+            if op(b) == "slice" and b[1] == curie and op(b[2]) == "bin" and b[2][1] == "+" and P in (b[2][2], b[2][3]) and any(is_const(x) for x in (b[2][2], b[2][3])):
+                k = [x for x in (b[2][2], b[2][3]) if is_const(x)][0][1]
+                ob.violate(
+                    fn.qualname,
+                    where(fn, line),
+                    f"the identifier starts {k} character(s) after the separator's position, not len(sep): wrong for every delimiter that is not exactly {k} character(s) long",
+                    witness="_split('a::b', sep='::') gives ('a', ':b')",
+                    detail="tail-offset",
+                )
+            elif not (okh and okt):
+                ob.undecide(f"_split returns `{show(t)[:70]}` from str.{m}: slices not recognised")
         elif m in ("rpartition", "rsplit"):
             ob.violate(fn.qualname, where(fn, line), f"_split uses str.{m}, which cuts at the LAST separator", witness="'a:b:c' must give ('a', 'b:c'), not ('a:b', 'c')", detail="last-occurrence")
         else:
@@ -96,9 +114,22 @@ def check_split(cx: Cx, ob: Ob) -> None:
                 ob.violate(fn.qualname, where(fn, ctx.path.out[2]), f"_split raises {name}, not a ValueError-derived delimiter error", detail="raise-class")
             continue
         ok = True
-        conds = [(g.a, g.b) for g in ctx.guards if g.kind == "guard"]
+        from ..rules import guard_atoms
+
+        conds = guard_atoms(ctx.guards)
         good = False
         for c, pol in conds:
+            # other spellings of "the separator does not occur": count == 0, find == -1 / < 0
+            cnt = ("call", ("attr", curie, "count"), (sep,), ())
+            fnd = ("call", ("attr", curie, "find"), (sep,), ())
+            if c == cnt and pol is False:
+                good = True
+            if op(c) == "cmp" and c[2] == cnt and ((c[1], c[3]) in (("==", ("const", 0)), ("<", ("const", 1)), ("<=", ("const", 0)))) and pol is True:
+                good = True
+            if op(c) == "cmp" and c[2] == fnd and ((c[1], c[3]) in (("==", ("const", -1)), ("<", ("const", 0)), ("<=", ("const", -1)))) and pol is True:
+                good = True
+            if op(c) == "cmp" and c[2] == fnd and ((c[1], c[3]) in ((">=", ("const", 0)), (">", ("const", -1)))) and pol is False:
+                good = True
             if op(c) == "item" and is_const(c[2], 1) and callee_name(c[1]) == "partition" and pol is False:
                 good = True
             if op(c) == "cmp" and c[1] in ("not in", "in") and c[2] == sep and c[3] == curie and ((c[1] == "not in") == pol):
@@ -387,6 +418,12 @@ def check_expand_pair_all(cx: Cx, ob: Ob) -> None:
         if bad:
             continue
         names = [(k, f) for k, f, _, _ in shape]
+        from ..rules import guard_atoms
+
+        if names == [("elem", "uri_prefix")] and rec is not None and any(a == ("attr", rec, "uri_prefix_synonyms") and pol is False for a, pol in guard_atoms(ctx.guards)):
+            # shortcut taken only when the record has no URI-prefix synonyms: the per-synonym part is empty
+            names.append(("each", "uri_prefix_synonyms"))
+            shape.append(("each", "uri_prefix_synonyms", (), rec))
         if names != [("elem", "uri_prefix"), ("each", "uri_prefix_synonyms")]:
             ob.violate(
                 fn.qualname,
